@@ -622,6 +622,14 @@ def monitor(case, impl, sh):
             if impl.get("leaked"):
                 fail("C05", "a zero-sized-element constructor panicked after allocating (block leaked %s)" % impl.get("leaked"))
             return f
+        if kind == "thin" and m.get("ctor") in THIN_BAD_CTORS:
+            # a fat Arc whose recorded length disagrees: `into_thin` MUST refuse with the length panic, and release the Arc
+            if cls != "length-mismatch":
+                fail("C10", "into_thin of a fat Arc with a disagreeing recorded length ended as %s instead of the length panic" % st)
+            if impl.get("leaked"):
+                fail("C10", "into_thin refused the Arc but did not release it: block %s is left allocated" % impl.get("leaked"))
+                fail("C05", "into_thin refused the Arc but did not release it: block %s is never returned to the allocator" % impl.get("leaked"))
+            return f
         if kind == "ovf":
             need = WORD + (0 if m["ctor"] == "slice_uninit" else sh.size(m["H"])) + m["len"] * sh.size(m["T"])
             if cls == "layout-overflow" and allocs == 0:
